@@ -5,22 +5,44 @@ REPO = os.environ.get("VERIF_REPO", "/repo")
 base = json.load(open("/root/.vp/BASELINE.json"))
 env = dict(os.environ, CARGO_NET_OFFLINE="true")
 env.pop("RUSTFLAGS", None)
-p = subprocess.run(["cargo", "test", "--workspace", "--no-fail-fast", "--offline", "--", "--test-threads", "8"],
-                   cwd=REPO, env=env, stdout=subprocess.PIPE, stderr=subprocess.STDOUT, text=True)
-crate = None
-res = {}
-for line in p.stdout.splitlines():
-    m = re.search(r"Running unittests (\S+) \(target/debug/deps/([A-Za-z0-9_]+)-[0-9a-f]+\)", line)
-    if m:
-        crate = m.group(2)
-        continue
-    m = re.match(r"test (\S+) \.\.\. (\w+)", line)
-    if m and crate:
-        res[(crate, m.group(1))] = m.group(2)
+
+
+def run_suite(extra):
+    p = subprocess.run(["cargo", "test"] + extra + ["--no-fail-fast", "--offline", "--", "--test-threads", "8"],
+                       cwd=REPO, env=env, stdout=subprocess.PIPE, stderr=subprocess.STDOUT, text=True)
+    crate = None
+    out = {}
+    for line in p.stdout.splitlines():
+        m = re.search(r"Running unittests (\S+) \(target/debug/deps/([A-Za-z0-9_]+)-[0-9a-f]+\)", line)
+        if m:
+            crate = m.group(2)
+            continue
+        m = re.match(r"test (\S+) \.\.\. (\w+)", line)
+        if m and crate:
+            out[(crate, m.group(1))] = m.group(2)
+    return out
+
+
+res = run_suite(["--workspace"])
 names = {"azure_proxy_agent": "azure-proxy-agent::bin/azure-proxy-agent::", "ProxyAgentExt": "ProxyAgentExt::bin/ProxyAgentExt::",
          "proxy_agent_shared": "proxy_agent_shared::", "proxy_agent_setup": "proxy_agent_setup::bin/proxy_agent_setup::"}
 got = {names.get(c, c + "::") + t: r for (c, t), r in res.items()}
 missing = [t for t in base["stable_pass"] if got.get(t) != "ok"]
+# timing-dependent tests (event_logger_test sleeps and shares /tmp/event_logger_test) fail now and then under load: a pinned test
+# counts as not passing only if it also fails when its package is run again, twice, on its own
+PKG = {"azure-proxy-agent::": "azure-proxy-agent", "ProxyAgentExt::": "ProxyAgentExt", "proxy_agent_shared::": "proxy_agent_shared",
+       "proxy_agent_setup::": "proxy_agent_setup"}
+for attempt in range(2):
+    if not missing:
+        break
+    pkgs = sorted({v for t in missing for k, v in PKG.items() if t.startswith(k)})
+    for pk in pkgs:
+        again = run_suite(["-p", pk])
+        got2 = {names.get(c, c + "::") + t: r for (c, t), r in again.items()}
+        for t in list(missing):
+            if got2.get(t) == "ok":
+                missing.remove(t)
+                print("passed when its package was re-run:", t)
 print(f"stable_pass: {len(base['stable_pass'])}, passing now: {len(base['stable_pass']) - len(missing)}")
 for t in missing:
     print("NOT PASSING:", t, got.get(t))
